@@ -16,6 +16,7 @@ from .. import absint_interp, absint_inv, rules, flow
 from ..rules import term_of_operand, term_of_local, term_str, param_by_name, callee_name, path_conditions, cond_true, cond_false
 from ..flow import term_contains
 from .common import ctx, short_site
+from ..layout import peel
 
 PID = 'C18'
 
@@ -227,6 +228,31 @@ def adapter_rules(c, res):
     okp = len(sts) == 1 and sts[0][2].rv.k == 'use' and _is_given(term_of_operand(sp, sts[0][2].rv.ops[0])) and len(list(sp.field_writes())) == 1
     res.require(okp, 'C18:RadioBuffer::set_pos', 'set_pos does not record exactly the length it is given: %s' % [term_str(term_of_operand(sp, x[2].rv.ops[0])) if x[2].rv.k == 'use' else x[2].rv.k for x in sts],
                 sp.body.path, 'PROVENANCE(pos = argument)', instance='RadioBuffer::set_pos: pos = the given length, nothing else written')
+    # ... for every length up to the capacity: the store may only be guarded by conditions that hold for 0 <= pos <= N
+    # (a guard `pos < N` drops the position of a packet that fills the buffer; the MAC then reads the stale length)
+    if okp:
+        import operator
+        ops_ = {'Eq': operator.eq, 'Ne': operator.ne, 'Lt': operator.lt, 'Le': operator.le, 'Gt': operator.gt, 'Ge': operator.ge}
+        bad = []
+        for cnd in rules.path_conditions(sp, sts[0][0]):
+            tm = cnd[0]
+            if not (isinstance(tm, tuple) and tm[0] in ops_ and len(tm) == 3):
+                bad.append(term_str(tm)[:60])
+                continue
+            def val(x, pos):
+                x = peel(x)
+                if x == ('param', 2):
+                    return pos
+                if term_str(x) in ('len(&*arg1.packet)', 'N') or (isinstance(x, tuple) and x[:1] == ('call',) and x[1].endswith('::len')):
+                    return 10
+                return None
+            for pos in (0, 5, 10):
+                a, b = val(tm[1], pos), val(tm[2], pos)
+                if a is None or b is None or ops_[tm[0]](a, b) != bool(rules.cond_true(cnd)):
+                    bad.append('%s required %s' % (term_str(tm)[:60], bool(rules.cond_true(cnd))))
+                    break
+        res.require(not bad, 'C18:RadioBuffer::set_pos:guard', 'set_pos records the length only under %s: a length the buffer can hold (0..=N, N itself for a packet that fills it) is not recorded and the MAC reads the previous length' % bad,
+                    sp.body.path, 'EXACT-GUARD(pos stored for every pos <= N)', instance='RadioBuffer::set_pos: stored for every length up to the capacity')
     # RadioBuffer::as_mut_for_read is packet[..pos]
     rb = c.bf('lorawan_device::radio::RadioBuffer::as_mut_for_read')
     for bb, t in rb.calls_to('IndexMut::index_mut'):
